@@ -159,7 +159,7 @@ class AudioWriter:
             while 1:
                 if interrupts and cycle == 0:
                     cycle = i_delays[i_delays_idx]
-                    if i:
+                    if i or d_offset:
                         delays[i] += i_delays[i_delays_idx]
                         d_offset += i_delays[i_delays_idx]
                     i_delays_idx = (i_delays_idx + 1) % len(i_delays)
